@@ -33,8 +33,17 @@ def finish(ctx: Ctx, write_evidence: bool = True) -> int:
         if ctx.monitors.get(m, 0) == 0:
             ctx.inconclusive_because(f"monitor_never_evaluated:{m}")
     for fn in ctx.must_reach:
+        soft = fn.startswith("?")      # "?" marks an internal helper: reported, not required
+        fn = fn.lstrip("?")
         if ctx.reach.get(fn, 0) == 0:
-            ctx.inconclusive_because(f"function_not_reached:{fn}")
+            # only the PUBLIC entry points are required: a private helper / validator method may be renamed, inlined
+            # or replaced by a harmless refactoring, which must not make the check fail (seeded change C13-g
+            # replaced _compute_similarity_matrix); an unreached private name is reported in the evidence only
+            last = fn.split("::")[-1].split(".")[-1]
+            if soft or last.startswith("_"):
+                ctx.note(f"private_function_not_reached:{fn}")
+            else:
+                ctx.inconclusive_because(f"function_not_reached:{fn}")
     if ctx.evaluations == 0:
         ctx.inconclusive_because("no_cases")
 
